@@ -83,6 +83,7 @@ type fnEnc struct {
 	curIdx   int
 	retSt    []*retPoint
 	retGoals [][]Term
+	orphanClauses []string
 	backGoals map[int][]*backEdgeGoals
 }
 
@@ -202,7 +203,10 @@ func (e *fnEnc) needSort(s Sort) {
 	switch s {
 	case SStr:
 		e.sortDecls = append(e.sortDecls,
-			"(declare-datatypes ((Str 0)) (((mk-str (s-arr (Array Int Int)) (s-off Int) (s-len Int)))))")
+			"(declare-datatypes ((Str 0)) (((mk-str (s-arr (Array Int Int)) (s-off Int) (s-len Int)))))",
+			// str.at is a named wrapper of the array read so that quantifier triggers can mention s[k]
+			"(declare-fun str.at (Str Int) Int)",
+			"(assert (forall ((s Str) (k Int)) (! (= (str.at s k) (select (s-arr s) (+ (s-off s) k))) :pattern ((str.at s k)))))")
 	case SAStr:
 		e.sortDecls = append(e.sortDecls, "(declare-sort AStr 0)", "(declare-fun alen (AStr) Int)")
 	case SSlice:
@@ -526,7 +530,7 @@ func strLen(s Term) Term {
 	}
 	return app(SInt, "s-len", s)
 }
-func strAt(s, i Term) Term { return sel(strArr(s), add(strOff(s), i), SInt) }
+func strAt(s, i Term) Term { return app(SInt, "str.at", s, i) }
 
 func slBase(s Term) Term { return app(SInt, "sl-base", s) }
 func slOff(s Term) Term  { return app(SInt, "sl-off", s) }
